@@ -262,9 +262,29 @@ func (st *step) copC() string {
 }
 
 func (h *Hist) CaseC() string {
+	w := h.w
 	ss := make([]string, len(h.steps))
 	for i, st := range h.steps {
 		ss[i] = fmt.Sprintf("(%s, %s)", st.copC(), st.obs)
 	}
-	return fmt.Sprintf("(CaseHist %s %s [\n    %s])", h.w.envC(), h.w.tabsC(nil), strings.Join(ss, ";\n    "))
+	// validator checks: every embedded voteproof of the table, every voteproof built by the ballotbox
+	var vs []string
+	var extra []*aVP
+	for _, v := range w.vps {
+		suf, ok := w.rsufs[v.h-1]
+		if !ok {
+			continue
+		}
+		wf := v.real.IsValid(w.netID) == nil
+		vs = append(vs, fmt.Sprintf("(%d%%nat, %s, %s, %s)", v.idx, vh.Z(v.h-1), vh.Bool(wf), vh.Bool(isaacValid(v.real, suf))))
+		h.res.Evaluations++
+	}
+	for _, vc := range h.valids {
+		if _, ok := w.rsufs[vc.sufH]; !ok {
+			continue
+		}
+		vs = append(vs, fmt.Sprintf("(%d%%nat, %s, %s, %s)", len(w.vps)+len(extra), vh.Z(vc.sufH), vh.Bool(vc.wf), vh.Bool(vc.valid)))
+		extra = append(extra, vc.a)
+	}
+	return fmt.Sprintf("(CaseHist %s %s [\n    %s] [%s])", w.envC(), w.tabsC(extra), strings.Join(ss, ";\n    "), strings.Join(vs, "; "))
 }
